@@ -149,6 +149,7 @@ static void run_edges(uint64_t idx, pv_rng* rng) {
                 if (i == p && (e & 1)) { /* after the fourth letter */ int letters = 0; size_t c = 0; uint32_t cps[64]; int nc = pv_utf8_decode(t, cps, 64);
                     for (int q = 0; q < nc; ++q) { if (!pv_is_accent(cps[q])) { if (letters == 4) { k += (size_t)pv_utf8_encode(edge[e], phrase + k); letters = 99; } ++letters; } k += (size_t)pv_utf8_encode(cps[q], phrase + k); } (void)c;
                     if (letters < 99) k += (size_t)pv_utf8_encode(edge[e], phrase + k); }
+                else if (i == p && (e % 4) == 2) { k += (size_t)pv_utf8_encode(edge[e], phrase + k); memcpy(phrase + k, t, l); k += l; }      /* in front of the first letter */
                 else { memcpy(phrase + k, t, l); k += l; if (i == p) k += (size_t)pv_utf8_encode(edge[e], phrase + k); }
                 if (i < 15) phrase[k++] = ' ';
             }
